@@ -14,9 +14,10 @@ from harness import vloop
 from tools.facts.common import fresh_import
 
 FOLLOW_ON = 1000
+GAP = 2
 
 
-def ser(p):
+def ser(p, plain=False):
     t = p[0]
     if t == 'skip':
         return 'skip'
@@ -25,12 +26,20 @@ def ser(p):
     if t == 'raise':
         return f'raise {p[1]}'
     if t == 'seq':
-        return f'seq {ser(p[1])} {ser(p[2])}'
+        return f'seq {ser(p[1], plain)} {ser(p[2], plain)}'
     if t == 'block':
-        return f'block {int(p[1])} {int(p[2])} {p[3]} {ser(p[4])}'
+        blk = f'block {int(p[1])} {int(p[2])} {p[3]} {ser(p[4], plain)}'
+        # forms 2/3: the timeout object is created GAP time units before it is entered - for the
+        # model that is simply a sleep before the block (the deadline counts from entry)
+        return f'seq sleep {GAP} {blk}' if p[5] >= 2 and not plain else blk
     if t == 'try':
-        return f'try {len(p[1])} {" ".join(p[1])} {ser(p[2])} {ser(p[3])}'
+        return f'try {len(p[1])} {" ".join(p[1])} {ser(p[2], plain)} {ser(p[3], plain)}'
     raise ValueError(p)
+
+
+
+def ser_plain(p):
+    return ser(p, plain=True)
 
 
 def show(p):
@@ -46,7 +55,8 @@ def show(p):
         return f'{show(p[1])}; {show(p[2])}'
     if t == 'block':
         name = ('ignore' if p[1] else 'timeout') + ('_after' if p[2] else '_at')
-        form = '' if p[5] == 0 else ' [coroutine form]'
+        form = {0: '', 1: ' [coroutine form]', 2: ' [created 2 earlier]',
+                3: ' [coroutine form, created 2 earlier]'}[p[5]]
         return f'{name}({p[3]}){form}{{ {show(p[4])} }}'
     if t == 'try':
         return f'try{{ {show(p[2])} }} except {"|".join(p[1])} {{ {show(p[3])} }}'
@@ -99,7 +109,7 @@ def gen(r, d, tie_prone=False):
             t = r.choice([2, 6, 10, 14, 18, 30, 0, -2]) if rel else \
                 r.choice([2, 6, 10, 14, 18, 30, 50, 0, -6])
         return ('block', r.random() < 0.4, rel, t, gen(r, d - 1, tie_prone),
-                1 if r.random() < 0.3 else 0)
+                r.choice([0, 0, 0, 0, 1, 1, 2, 3]))
     if k < 0.93:
         cs = r.sample(['T', 'O', 'U'], r.randint(1, 2))
         return ('try', cs, gen(r, d - 1, tie_prone),
@@ -195,12 +205,14 @@ class Impl:
             return
         if t == 'block':
             ig, rel, tt, body, form = p[1:]
-            now = int(loop.time())
-            d = now + tt if rel else tt
-            if form == 0:
+            if form in (0, 2):
                 fn = (c.ignore_after if ig else c.timeout_after) if rel else \
                     (c.ignore_at if ig else c.timeout_at)
                 cm = fn(tt)
+                if form == 2:
+                    await c.sleep(GAP)      # created now, entered later
+                now = int(loop.time())
+                d = now + tt if rel else tt
                 try:
                     async with cm:
                         await self.ex(body, evs)
@@ -211,14 +223,26 @@ class Impl:
                     evs.append((d, 'ok', int(cm.expired), int(loop.time()), now))
             else:
                 # coroutine form: expiry is visible only through timeout_result (ignore forms)
+                if ig:
+                    fn = c.ignore_after if rel else c.ignore_at
+                    aw = fn(tt, self.ex, body, evs, timeout_result='TR')
+                else:
+                    fn = c.timeout_after if rel else c.timeout_at
+                    aw = fn(tt, self.ex, body, evs)
+                if form == 3:
+                    try:
+                        await c.sleep(GAP)      # the awaitable exists, it is awaited later
+                    except BaseException:
+                        aw.close()
+                        raise
+                now = int(loop.time())
+                d = now + tt if rel else tt
                 try:
                     if ig:
-                        fn = c.ignore_after if rel else c.ignore_at
-                        res = await fn(tt, self.ex, body, evs, timeout_result='TR')
+                        res = await aw
                         exp = 1 if res == 'TR' else 0
                     else:
-                        fn = c.timeout_after if rel else c.timeout_at
-                        await fn(tt, self.ex, body, evs)
+                        await aw
                         exp = 0
                 except BaseException as e:
                     evs.append((d, self.cls(e), '?', int(loop.time()), now))
